@@ -1446,7 +1446,9 @@ def reaction_spec(ei, label, kfi, kri, u):
     return {"eq": eq, "label": label, "kf": _kf_forms(of)[kfi], "kr": _kr_forms(orv)[kri], "u": u}
 
 
-ENVS = [[""], ["a", "b"], ["a", "b", "c"]]
+# the position of a label in the list is what cell_env / node environment indices refer to: lists that are NOT in
+# alphabetical order are part of the catalogue (indices 3, 4), at network and at system level
+ENVS = [[""], ["a", "b"], ["a", "b", "c"], ["b", "a"], ["c", "a", "b"]]
 
 
 def network_spec(variant, envi, nu, mu, env_tuple=False):
@@ -1522,7 +1524,7 @@ def _space_size(sp):
 PRIMES = [2, 3, 5, 7, 11, 13, 17, 19, 23, 29, 31, 37, 41, 43, 47, 53, 59, 61, 67, 71, 73, 79, 83, 89, 97, 101,
           103, 107, 109, 113, 127, 131, 137, 139, 149, 151]
 
-SYS_NETS = [(1, 0), (4, 1)]                 # (network variant, environment list)
+SYS_NETS = [(1, 0), (4, 4)]                 # (network variant, environment list); the 2nd is ("c", "a", "b")
 SYS_SPACES = ["grid2", "grid321", "graph3"]
 
 
@@ -1614,15 +1616,15 @@ def _spaces(tier, seed):
 
     def gen_networks():
         for variant in range(5):
-            for envi in range(3):
+            for envi in range(len(ENVS)):
                 for tup in (False, True):
                     for nu in range(3):
                         for mu in range(4):
                             for r in R5:
                                 yield {"sub": "rt", "kind": "rdnetwork", "route": r,
                                        "spec": network_spec(variant, envi, nu, mu, tup)}
-    sp.append(("networks: 5 contents x 1-3 environments x {list, tuple} x 3 network systems x 4 member-system patterns x {dict, json, foreign parent, save/load absolute, relative from another cwd}",
-               gen_networks, 5 * 3 * 2 * 3 * 4 * 5, 60))
+    sp.append(("networks: 5 contents x 5 environment lists (1-3 labels, sorted and not sorted) x {list, tuple} x 3 network systems x 4 member-system patterns x {dict, json, foreign parent, save/load absolute, relative from another cwd}",
+               gen_networks, 5 * len(ENVS) * 2 * 3 * 4 * 5, 60))
 
     GR = ["dict", "json", "poison", "abs", "rel"]
 
@@ -1808,7 +1810,7 @@ def _spaces(tier, seed):
 
     def sysmap_spec(fi, ci, sti, spi, us):
         nu, mu, su, yu = us
-        net = network_spec(3, 1, nu, mu)
+        net = network_spec(3, 3, nu, mu)            # environments ("b", "a")
         net["species"][0]["chstt"] = FLAGS[fi]
         net["species"][1]["chstt"] = False
         net["species"][2]["chstt"] = {"b": True}
